@@ -6,7 +6,8 @@ open Slock.Engine (has)
 theorem applyLock_tight (db : DB) (hdb : DBI db) (ht : ∀ k ∈ db.keys, KeyTight k) (c : Cmd) (data : Option Bytes) (b : LockBranch)
     (hb : ∀ h, b.holderOf = some h → h ∈ (db.getKey c.key).current.toList ++ (db.getKey c.key).locks)
     (hrel : ∀ h, b = .relock h → 0 < ((db.getKey c.key).getR h).depth)
-    (huwr : b = .unlockedWaitRefused → (db.getKey c.key).waited = true) :
+    (huwr : b = .unlockedWaitRefused → (db.getKey c.key).waited = true)
+    (hupd : ∀ h, b = .update h → 0 < ((db.getKey c.key).getR h).depth) :
     Tight (applyLock db c data b) := by
   have ge := Good.enter hdb ht c.key
   have le := ge.lv
@@ -45,7 +46,12 @@ theorem applyLock_tight (db : DB) (hdb : DBI db) (ht : ∀ k ∈ db.keys, KeyTig
     have hh1 := (keep_procData (db.enter c.key) .lock (lockCmdOf (db.enter c.key).k c (.update h))
       (frameOf (lockCmdOf (db.enter c.key).k c (.update h)) data) h h).1.mpr hh
     have l2 := g1.lv.updateLocked zero_nonneg h (lockCmdOf (db.enter c.key).k c (.update h)) hh1
-    have n2 := Nz.updateLocked g1.lv g1.nz h (lockCmdOf (db.enter c.key).k c (.update h)) hh1
+    have hd1 : 0 < (((db.enter c.key).procData .lock (lockCmdOf (db.enter c.key).k c (.update h))
+        (frameOf (lockCmdOf (db.enter c.key).k c (.update h)) data) h).k.getR h).depth := by
+      rw [(keep_procData (db.enter c.key) .lock (lockCmdOf (db.enter c.key).k c (.update h))
+        (frameOf (lockCmdOf (db.enter c.key).k c (.update h)) data) h h).2.2.2.2.2.2.1, enter_k]
+      exact hupd h rfl
+    have n2 := Nz.updateLocked g1.lv g1.nz h (lockCmdOf (db.enter c.key).k c (.update h)) hh1 hd1
     have g2 : Good _ := ⟨l2, n2⟩
     have g3 := g2.of_up (l2.when (!has (lockCmdOf (db.enter c.key).k c (.update h)).flag Slock.Engine.F_FROM_AOF) (·.journalLock h AOF_UPDATED) (l2.journalLock _ _))
       (up_when _ _ (·.journalLock h AOF_UPDATED) (up_journalLock _ _ _))
@@ -70,13 +76,18 @@ theorem applyLock_tight (db : DB) (hdb : DBI db) (ht : ∀ k ∈ db.keys, KeyTig
       le.modR_plain h _ (fun _ => rfl) (fun _ => rfl) (fun _ => rfl) (fun _ => rfl) (fun _ => rfl)
     have n1 : Nz ((db.enter c.key).modR h (fun r => { r with depth := r.depth + 1 })) none :=
       ge.nz.modR_at h _ (fun _ => rfl) (fun _ hf => ⟨hf.pos, fun _ => hf.hold hd, fun hx => by
-        have := hf.ended hx; omega⟩)
+        have := hf.ended hx; omega, fun hz => by simp only [] at hz; omega⟩)
     have hh1 : ((db.enter c.key).modR h (fun r => { r with depth := r.depth + 1 })).k.hasRec h := (hasRec_modR _ h h _ (by intro _; rfl)).mpr hh
     have g2 : Good (((db.enter c.key).modR h (fun r => { r with depth := r.depth + 1 })).modK incLocked) :=
       ⟨l1.modK incLocked (l1.rc.transfer rfl rfl (fun _ => rfl)) (RecsLe.of_eq rfl), n1.modK_eq _ rfl⟩
     have g3 := g2.of_up (g2.lv.procData .lock c (frameOf c data) h) (up_procData _ _ _ _ _)
     have hh3 := (keep_procData (((db.enter c.key).modR h (fun r => { r with depth := r.depth + 1 })).modK incLocked) .lock c (frameOf c data) h h).1.mpr hh1
-    have g4 : Good _ := ⟨g3.lv.updateLocked zero_nonneg h c hh3, Nz.updateLocked g3.lv g3.nz h c hh3⟩
+    have hd3 : 0 < (((((db.enter c.key).modR h (fun r => { r with depth := r.depth + 1 })).modK incLocked).procData .lock c (frameOf c data) h).k.getR h).depth := by
+      rw [(keep_procData (((db.enter c.key).modR h (fun r => { r with depth := r.depth + 1 })).modK incLocked) .lock c (frameOf c data) h h).2.2.2.2.2.2.1]
+      show 0 < (((db.enter c.key).k.modRec h (fun r => { r with depth := r.depth + 1 })).getR h).depth
+      rw [getR_modRec_same _ _ _ (by intro _; rfl) hh]
+      exact Nat.succ_pos _
+    have g4 : Good _ := ⟨g3.lv.updateLocked zero_nonneg h c hh3, Nz.updateLocked g3.lv g3.nz h c hh3 hd3⟩
     have hh4 := (hasRec_of_ids (ids_updateLocked _ h c) h).mpr hh3
     have g5 := g4.of_up (g4.lv.journalLock h AOF_UPDATED) (up_journalLock _ _ _)
     have hh5 := (hasRec_of_ids (ids_journalLock _ h AOF_UPDATED) h).mpr hh4
@@ -137,6 +148,14 @@ theorem applyLock_tight (db : DB) (hdb : DBI db) (ht : ∀ k ∈ db.keys, KeyTig
         (db.enter c.key).db.nextRid |>.k.hasRec (db.enter c.key).db.nextRid := by
       unfold W.ref; rw [hasRec_modR _ _ _ _ (by intro _; rfl)]; exact hh2
     -- the new record: counted (queue entry + wheel entry), not a hold
+    have kx := proj_addWaitLock (·.expried) (fun _ _ => rfl) ((db.enter c.key).newLock c data).1.k (db.enter c.key).db.nextRid hn hcnt
+    rw [hg] at kx
+    have hx3 : (((((db.enter c.key).newLock c data).1.modK (·.addWaitLock (db.enter c.key).db.nextRid)).addTimeOut (db.enter c.key).db.nextRid).ref
+        (db.enter c.key).db.nextRid |>.k.getR (db.enter c.key).db.nextRid).expried = true := by
+      unfold W.ref W.addTimeOut
+      simp only [modR_k, modK_k]
+      rw [getR_modRec_expried _ _ _ _ (by intro _; rfl) (by intro _; rfl), getR_modRec_expried _ _ _ _ (by intro _; rfl) (by intro _; rfl)]
+      exact kx
     have hd3 : (((((db.enter c.key).newLock c data).1.modK (·.addWaitLock (db.enter c.key).db.nextRid)).addTimeOut (db.enter c.key).db.nextRid).ref
         (db.enter c.key).db.nextRid |>.k.getR (db.enter c.key).db.nextRid).depth = 0 := by
       unfold W.ref W.addTimeOut
@@ -152,7 +171,7 @@ theorem applyLock_tight (db : DB) (hdb : DBI db) (ht : ∀ k ∈ db.keys, KeyTig
         simp only [modR_k, modK_k]
         rw [getR_modRec_tSome _ _ _ _ (by intro _; rfl) (by intro _; rfl), getR_modRec_same _ _ _ (by intro _; rfl) k1]
         rfl
-      exact ⟨by simp only [zero] at hrc; omega, fun hp => by rw [hd3] at hp; omega, fun _ => hd3⟩)
+      exact ⟨by simp only [zero] at hrc; omega, fun hp => by rw [hd3] at hp; omega, fun _ => hd3, fun _ _ => hx3⟩)
     have g4 : Good _ := ⟨l3, n4⟩
     have cn : CurLive ((db.enter c.key).newLock c data).1.k := ce.addRec _ (hasRec_current le)
     have c4 := cn.of_dk (DK.trans (dk_ref _ _) (DK.trans (dk_addTimeOut _ _) (dk_modK _ _ (DepthKeep.addWaitLock _ _)))) l3
